@@ -77,6 +77,11 @@ func (encryptor *QueryDataEncryptor) encryptInsertQuery(ctx context.Context, ins
 			return false, err
 		}
 	}
+	// without a data encryptor this object only collects column settings (see EncryptionSettingExtractor):
+	// there is nothing to encrypt with, whatever the statement looks like
+	if encryptor.encryptor == nil {
+		return false, nil
+	}
 
 	var columnsName []string
 	if len(insert.Cols) > 0 {
@@ -247,6 +252,11 @@ func (encryptor *QueryDataEncryptor) encryptUpdateQuery(ctx context.Context, upd
 			return false, err
 		}
 	}
+	// without a data encryptor this object only collects column settings (see EncryptionSettingExtractor):
+	// there is nothing to encrypt with, whatever the statement looks like
+	if encryptor.encryptor == nil {
+		return false, nil
+	}
 
 	return encryptor.encryptUpdateExpressions(ctx, update, firstTable, qualifierMap, bindPlaceholders)
 }
@@ -315,6 +325,11 @@ func (encryptor *QueryDataEncryptor) onDelete(ctx context.Context, delete *pg_qu
 		if encryptor.encryptor == nil {
 			return false, err
 		}
+	}
+	// without a data encryptor this object only collects column settings (see EncryptionSettingExtractor):
+	// there is nothing to encrypt with, whatever the statement looks like
+	if encryptor.encryptor == nil {
+		return false, nil
 	}
 
 	return false, nil
